@@ -47,7 +47,7 @@ Expect reference(const std::deque<double>& win, double p, size_t W) {
 
 std::string hist_json(const std::vector<int>& h, const std::vector<double>& alpha) {
   std::string s = "["; bool f = true;
-  for (int o : h) { if (!f) s += ","; f = false; s += (o < 0) ? std::string("\"reset\"") : vf::jnum(alpha[o]); }
+  for (int o : h) { if (!f) s += ","; f = false; s += (o < 0) ? std::string("\"reset\"") : o >= (int)alpha.size() ? std::string("\"continue with a copy\"") : vf::jnum(alpha[o]); }
   return s + "]";
 }
 
@@ -149,20 +149,21 @@ template <class A> void s1(vf::Ctx& c, size_t W, double p, bool isVar) {
 // ---- S1b: every operation sequence to a depth, no state de-duplication (robust against state the key does not see) -------
 template <class A> void s1b(vf::Ctx& c, size_t W, double p, bool isVar, int depth) {
   std::vector<double> alpha = alphabet(p, true, true);
-  const int NOPS = (int)alpha.size() + 1;
+  const int NV = (int)alpha.size();
+  const int NOPS = NV + 2;   // reset (-1), update(value) (0..NV-1), continue with a copy-constructed object (NV; the classes have hand-written copy constructors and no assignment)
   uint64_t total = 1; for (int i = 0; i < depth; ++i) total *= NOPS;
   std::vector<int> seq(depth);
   for (uint64_t k = 0; k < total; ++k) {
     uint64_t r = k; for (int i = 0; i < depth; ++i) { seq[i] = (int)(r % NOPS) - 1; r /= NOPS; }
-    A a(p, W); Model m{W};
+    std::unique_ptr<A> a(new A(p, W)); Model m{W};
     for (int i = 0; i < depth; ++i) {
-      if (seq[i] < 0) { a.reset(); m.reset(); } else { a.update(alpha[seq[i]]); m.update(alpha[seq[i]]); }
+      if (seq[i] < 0) { a->reset(); m.reset(); } else if (seq[i] == NV) { std::unique_ptr<A> cp(new A(*a)); a = std::move(cp); } else { a->update(alpha[seq[i]]); m.update(alpha[seq[i]]); }
       c.transitions();
       if (i + 1 < depth && k % NOPS) continue;   // prefixes are checked when they are enumerated as full sequences of a shorter tail: check the last step always, inner steps on a fraction
       std::vector<int> h(seq.begin(), seq.begin() + i + 1);
       std::string params = vf::JO().str("explorer", "S1b").str("object", isVar ? "OnlineVariance" : "OnlineAverage").u("window", W).num("precision", p).raw("history", hist_json(h, alpha)).done();
       if (i) c.nontrivial();
-      if (!check<A>(c, a, m, p, isVar, params)) break;
+      if (!check<A>(c, *a, m, p, isVar, params)) break;
     }
     c.traces();
     if (c.c.violations > 30) return;
@@ -307,7 +308,7 @@ std::string vf_describe(const std::string& tier) {
   o.str("S2_scripts", "cyclic small values; alternating-sign values of magnitude 9e7*precision (bound 0 and a reset at every position)");
   o.str("S2", th ? "every window 1..64, 10*W updates, deviation bound 1 (reset or outlier at any position), bound 2 for W<=8, W=12, W=64"
                  : "every window 1..64 bound 0; bound 1 for W<=8,16,63,64 (all precisions) and all W at precisions 1e-3,1e-6; bound 2 for W<=8");
-  o.str("S1b", th ? "every update/reset sequence of length 7 for windows 1..3, no state de-duplication; alphabet = the five S1 values, exactly 0.0, reset" : "every update/reset sequence of length 5 for windows 1..3, no state de-duplication; alphabet = the five S1 values, exactly 0.0, reset");
+  o.str("S1b", th ? "every update/reset sequence of length 7 for windows 1..3, no state de-duplication; alphabet = the five S1 values, exactly 0.0, reset, continue with a copy-constructed object" : "every update/reset sequence of length 5 for windows 1..3, no state de-duplication; alphabet = the five S1 values, exactly 0.0, reset, continue with a copy-constructed object");
   o.str("S3", "ring capacities 1..16, append(fresh tag)/clear(), BFS to fixpoint, states canonicalised by relative age");
   o.str("oracle", "availability <=> count>=W; mean of model window of truncated samples (long double); unbiased variance once full; bit-equality with a fresh object fed the model window");
   return o.done();
